@@ -2614,4 +2614,123 @@ theorem layout_final_desc (o : Obj) (h : Bytes) (res : LayoutRes) (hl : layoutOf
     rw [hk] at ht; simp only [Option.some.injEq] at ht; subst ht
     exact ⟨_, hs, hm, fun h => Bool.noConfusion h, fun _ hi => (hr hi).1⟩
 
+/-! ### flat segments (no member generated before the segment's turn) -/
+
+def segFreshB (lay : Layout) (g : Seg) : Bool :=
+  !lseg_is_phdr g.stype (BitVec.ofNat 16 g.secs.length) && !lseg_offset0 g.offsetSet g.offset &&
+    match g.secs.head? with
+    | some f => lay.gen[f.toNat]? == some false
+    | none => false
+
+theorem segFresh_of_B (lay : Layout) (g : Seg) (h : segFreshB lay g = true) : segFresh lay g := by
+  unfold segFreshB at h
+  simp only [Bool.and_eq_true, Bool.not_eq_true'] at h
+  obtain ⟨⟨h1, h2⟩, h3⟩ := h
+  refine ⟨h1, h2, ?_⟩
+  cases hh : g.secs.head? with
+  | none => rw [hh] at h3; exact nomatch h3
+  | some f => rw [hh] at h3; exact ⟨f, rfl, by simpa using h3⟩
+
+/-- every member is not yet generated when its step comes (flat object: the member lists of the
+    segments are disjoint and duplicate-free) -/
+def segFlat (c : Cls) (hdrPhoff : BitVec 64) (phentsize phnum : BitVec 16) (lay : Layout) (g : Seg) : Bool :=
+  match segFirstGen lay g with
+  | .ok fg =>
+    match segInit c hdrPhoff phentsize phnum lay g fg with
+    | .ok r => wsdLoopAll (fun st idx => wsdStepFresh st idx) c g r.2.1 g.secs { lay := r.1, mem := r.2.2.1, file := r.2.2.2 }
+    | _ => true
+  | _ => true
+
+theorem wsdLoop_fresh_members (c : Cls) (g : Seg) (segStart : BitVec 64) (l : List (BitVec 16)) (st : WsdSt)
+    (lo : Nat) (hinv : LayInv lo st.lay) (hnw : wsdLoopNW c g segStart l st = true)
+    (hfr : wsdLoopAll (fun st idx => wsdStepFresh st idx) c g segStart l st = true)
+    (st' : WsdSt) (h : wsdLoop c g segStart l st = .ok (some st')) :
+    ∀ idx ∈ l, ¬ st.lay.Gen idx.toNat := by
+  induction l generalizing st with
+  | nil => intro idx hm; exact nomatch hm
+  | cons i rest ih =>
+    unfold wsdLoop at h
+    unfold wsdLoopNW at hnw
+    unfold wsdLoopAll at hfr
+    cases hs : wsdStep c g segStart st i with
+    | error e => rw [hs] at h; simp [bind, Except.bind] at h
+    | ok r =>
+      rw [hs] at h hnw hfr
+      cases r with
+      | none => simp [bind, Except.bind, pure, Except.pure] at h
+      | some st1 =>
+        simp only [bind, Except.bind, Bool.and_eq_true] at h hnw hfr
+        obtain ⟨i1, s1⟩ := wsdStep_inv c g segStart st st1 i lo hinv hnw.1 hs
+        intro idx hm
+        rcases List.mem_cons.1 hm with rfl | hm
+        · intro hg
+          have := hfr.1
+          simp only [wsdStepFresh, beq_iff_eq] at this
+          unfold Layout.Gen at hg; rw [hg] at this; exact nomatch this
+        · intro hg
+          exact ih st1 i1 hnw.2 hfr.2 h idx hm (s1.genMono _ hg)
+
+theorem layoutSegment_flat (c : Cls) (hdrPhoff : BitVec 64) (phentsize phnum : BitVec 16)
+    (lay lay' : Layout) (g g' : Seg) (lo : Nat) (hinv : LayInv lo lay)
+    (hnw : segNW c hdrPhoff phentsize phnum lay g = true)
+    (hdom : segDom false false c hdrPhoff phentsize phnum lay g = true)
+    (hflat : segFlat c hdrPhoff phentsize phnum lay g = true)
+    (hfresh : segFresh lay g)
+    (h : layoutSegment c hdrPhoff phentsize phnum lay g = .ok (some (lay', g'))) :
+    lay.pos.toNat ≤ g'.offset.toNat ∧ g'.offset.toNat + g'.filesz.toNat ≤ lay'.pos.toNat ∧
+    (∀ idx ∈ g.secs, ¬ lay.Gen idx.toNat) := by
+  obtain ⟨fg, r, st, hfg, hin, hloop, rfl, rfl⟩ := layoutSegment_parts c hdrPhoff phentsize phnum lay lay' g g' h
+  unfold segNW at hnw
+  unfold segDom at hdom
+  unfold segFlat at hflat
+  rw [hfg] at hnw hdom hflat
+  simp only at hnw hdom hflat
+  rw [hin] at hnw hdom hflat
+  simp only [hloop, Bool.and_eq_true, decide_eq_true_eq, Bool.or_eq_true, Bool.not_eq_true'] at hnw hdom hflat
+  obtain ⟨⟨hpos, hsfit⟩, hlnw⟩ := hnw
+  obtain ⟨⟨⟨hd1, -⟩, -⟩, hmfit⟩ := hdom
+  have hl := segInit_lay c hdrPhoff phentsize phnum lay g fg r hin
+  have hinv1 : LayInv lo r.1 := by rw [hl]; exact ⟨hinv.len, hinv.packed.mono hpos⟩
+  have hsz := segInit_sizes c hdrPhoff phentsize phnum lay g fg r hin
+  obtain ⟨hoff, hfs, -, -, -, -, -, -⟩ := segFinish_fields c g r.2.1 st
+  obtain ⟨hfg', hin'⟩ := segInit_fresh c hdrPhoff phentsize phnum lay g hfresh
+  rw [hfg] at hfg'; simp only [Except.ok.injEq] at hfg'; subst hfg'
+  rw [hin] at hin'; simp only [Except.ok.injEq] at hin'
+  have e1 : r.2.1 = r.1.pos := by rw [hin']
+  have e4 : r.2.2.2 = 0 := by rw [hin']
+  have hw0 : WsdInv false false r.2.1 { lay := r.1, mem := r.2.2.1, file := r.2.2.2 } :=
+    ⟨by simp only; rw [hsz]; exact Nat.le_refl _, (fun h => nomatch h), (fun h => nomatch h)⟩
+  obtain ⟨w0, -⟩ := wsdLoop_dom false false c g r.2.1 g.secs _ st lo hinv1 hw0 hlnw hd1
+    (fun h => nomatch h) (fun h => nomatch h) hloop
+  have hffit : fitsB c st.file = true := fitsB_mono c _ _ w0.fileLe hmfit
+  have hfl := wsdLoop_file_le c g r.2.1 g.secs _ st lo hinv1 hlnw hd1 hflat
+    (by simp only; rw [hsz]; exact Nat.le_refl _)
+    ⟨by simp only; rw [e1]; exact Nat.le_refl _, by simp only; rw [e4]; simp⟩ hloop
+  have hmem := wsdLoop_fresh_members c g r.2.1 g.secs _ lo hinv1 hlnw hflat st hloop
+  rw [hoff, hfs, truncA_of_fits c _ hsfit, truncA_of_fits c _ hffit]
+  refine ⟨by rw [e1]; exact hpos, by omega, ?_⟩
+  intro idx hm hg
+  exact hmem idx hm (by simp only; rw [hl]; exact hg)
+
+theorem layoutSegment_empty (c : Cls) (hdrPhoff : BitVec 64) (phentsize phnum : BitVec 16)
+    (lay lay' : Layout) (g g' : Seg) (he : g.secs = [])
+    (hph : lseg_is_phdr g.stype (BitVec.ofNat 16 g.secs.length) = false)
+    (h : layoutSegment c hdrPhoff phentsize phnum lay g = .ok (some (lay', g'))) : g'.filesz = 0 := by
+  obtain ⟨fg, r, st, hfg, hin, hloop, rfl, rfl⟩ := layoutSegment_parts c hdrPhoff phentsize phnum lay lay' g g' h
+  rw [he] at hloop
+  simp only [wsdLoop, pure, Except.pure, Except.ok.injEq, Option.some.injEq] at hloop
+  subst hloop
+  rw [(segFinish_fields c g r.2.1 _).2.1]
+  simp only
+  have : r.2.2.2 = 0 := by
+    have hph' : lseg_is_phdr g.stype 0#16 = false := by
+      rw [he] at hph; simpa using hph
+    unfold segInit at hin
+    simp only [he, List.length_nil, BitVec.ofNat_eq_ofNat, hph', Bool.false_eq_true, if_false, Nat.lt_irrefl,
+      gt_iff_lt, decide_false, Bool.false_and] at hin
+    repeat' split at hin
+    all_goals (simp only [pure, Except.pure, Except.ok.injEq] at hin; subst hin; rfl)
+  rw [this]
+  cases c <;> rfl
+
 end ElfioVerif
